@@ -1160,7 +1160,15 @@ func checkReverse(ctx context.Context, r *simkit.Run, w *world, obs *sql.DB, pla
 	// Down on the real database.
 	for _, s := range rev {
 		if _, err := w.db.ExecContext(ctx, s); err != nil {
-			r.Fail(prop, "down", "reverse-statement-fails", "step %d: reverse statement fails: %v\nstatement: %s\nplan:\n%s", step, err, s, planText(plan))
+			sig := "reverse-statement-fails"
+			// A recorded finding with a name of its own: the plan created a table before the table it
+			// references (SQLite's planner keeps the order of the change set); in reverse order the
+			// referenced table is dropped first, and with foreign keys enforced the DROP of the
+			// referencing one then fails on the missing parent.
+			if strings.HasPrefix(s, "DROP TABLE") && strings.Contains(err.Error(), "no such table: main.") {
+				sig = "reverse-statement-fails/drop-of-referencing-table-after-its-parent"
+			}
+			r.Fail(prop, "down", sig, "step %d: reverse statement fails: %v\nstatement: %s\nplan:\n%s", step, err, s, planText(plan))
 			return
 		}
 	}
